@@ -1,0 +1,52 @@
+package cmd
+
+import (
+	"os"
+	"path/filepath"
+)
+
+// writeFileAtomic replaces the file at path with data so that, whatever
+// happens (the process is interrupted, the disk fills up, a write fails after
+// some bytes), path holds either its complete previous content or the complete
+// new content - never a truncated or partially written file.
+//
+// The data is written to a temporary file in the same directory, which is then
+// renamed over path. An existing file keeps its permission bits; perm is used
+// only when path does not exist yet.
+func writeFileAtomic(path string, data []byte, perm os.FileMode) error {
+	if info, err := os.Stat(path); err == nil {
+		perm = info.Mode().Perm()
+	}
+
+	tmp, err := os.CreateTemp(filepath.Dir(path), "."+filepath.Base(path)+".tmp-*")
+	if err != nil {
+		return err
+	}
+	tmpName := tmp.Name()
+	cleanup := func() {
+		_ = tmp.Close()
+		_ = os.Remove(tmpName)
+	}
+
+	if _, err := tmp.Write(data); err != nil {
+		cleanup()
+		return err
+	}
+	if err := tmp.Chmod(perm); err != nil {
+		cleanup()
+		return err
+	}
+	if err := tmp.Sync(); err != nil {
+		cleanup()
+		return err
+	}
+	if err := tmp.Close(); err != nil {
+		_ = os.Remove(tmpName)
+		return err
+	}
+	if err := os.Rename(tmpName, path); err != nil {
+		_ = os.Remove(tmpName)
+		return err
+	}
+	return nil
+}
